@@ -18,100 +18,7 @@ verus! {
 
 //@include prelude/bx.rs
 
-// ---------------------------------------------------------------- matrix containers (ASSUMED: they implement the algebra above; C13)
-pub struct Mat { pub m: Ghost<int> }
-pub struct SpMat { pub m: Ghost<int> }
-pub trait ML: Sized { spec fn mv(&self) -> int; }
-impl ML for SpMat { open spec fn mv(&self) -> int { self.m@ } }
-impl ML for &SpMat { open spec fn mv(&self) -> int { self.m@ } }
-#[verifier::external_body] pub fn qmul_<A: ML, B: ML>(a: A, b: B) -> (r: SpMat) requires nc(a.mv()) == nr(b.mv()) ensures r.m@ == mmul(a.mv(), b.mv()) { unimplemented!() }
-impl SpMat {
-    #[verifier::external_body] pub fn nrows(&self) -> (r: usize) ensures r == nr(self.m@) { unimplemented!() }
-    #[verifier::external_body] pub fn ncols(&self) -> (r: usize) ensures r == nc(self.m@) { unimplemented!() }
-    #[verifier::external_body] pub fn shape(&self) -> (r: (usize, usize)) ensures r.0 == nr(self.m@), r.1 == nc(self.m@) { unimplemented!() }
-    #[verifier::external_body] pub fn is_zero(&self) -> (r: bool) ensures r == (self.m@ == mzero(nr(self.m@), nc(self.m@))) { unimplemented!() }
-    #[verifier::external_body] pub fn into_dense(self) -> (r: Mat) ensures r.m@ == self.m@ { unimplemented!() }
-    #[verifier::external_body] pub fn stack(&self, o: &SpMat) -> (r: SpMat) requires nc(self.m@) == nc(o.m@) ensures r.m@ == mstack(self.m@, o.m@) { unimplemented!() }
-    #[verifier::external_body] pub fn concat(&self, o: &SpMat) -> (r: SpMat) requires nr(self.m@) == nr(o.m@) ensures r.m@ == mconcat(self.m@, o.m@) { unimplemented!() }
-}
-impl Mat {
-    #[verifier::external_body] pub fn nrows(&self) -> (r: usize) ensures r == nr(self.m@) { unimplemented!() }
-    #[verifier::external_body] pub fn ncols(&self) -> (r: usize) ensures r == nc(self.m@) { unimplemented!() }
-    #[verifier::external_body] pub fn into_sparse(self) -> (r: SpMat) ensures r.m@ == self.m@ { unimplemented!() }
-    #[verifier::external_body] pub fn submat_rows(&self, r: core::ops::Range<usize>) -> (s: Mat)
-        requires r.start <= r.end <= nr(self.m@) ensures s.m@ == mrows(self.m@, r.start as int, r.end as int) { unimplemented!() }
-    #[verifier::external_body] pub fn submat_cols(&self, r: core::ops::Range<usize>) -> (s: Mat)
-        requires r.start <= r.end <= nc(self.m@) ensures s.m@ == mcols(self.m@, r.start as int, r.end as int) { unimplemented!() }
-}
-/// Trans::new / Trans::id (proved in unit trans over dimension-free matrices; ASSUMED here)
-pub struct Trans { pub f: Ghost<int>, pub b: Ghost<int> }
-impl Trans {
-    #[verifier::external_body] pub fn new(f: SpMat, b: SpMat) -> (r: Trans) ensures r.f@ == f.m@, r.b@ == b.m@ { unimplemented!() }
-    #[verifier::external_body] pub fn id(n: usize) -> (r: Trans) ensures r.f@ == mid(n as int), r.b@ == mid(n as int) { unimplemented!() }
-}
-
-// ---------------------------------------------------------------- Smith normal form results (ASSUMED contract of snf_in_place: property C09)
-/// ghost content of an SnfResult for the input a: D = P a Q, two-sided inverses, rank r, invariant factors diag
-pub struct SnfResult { pub a: Ghost<int>, pub d: Ghost<int>, pub gp: Ghost<int>, pub gpinv: Ghost<int>, pub gq: Ghost<int>, pub gqinv: Ghost<int>,
-                       pub r: Ghost<int>, pub diag: Ghost<Seq<int>>, pub flags: Ghost<Seq<bool>> }
-pub open spec fn snf_ok(s: SnfResult) -> bool {
-    let (a, d, p, pi, q, qi, r) = (s.a@, s.d@, s.gp@, s.gpinv@, s.gq@, s.gqinv@, s.r@);
-    &&& nr(d) == nr(a) && nc(d) == nc(a) && 0 <= r <= nr(a) && r <= nc(a) && 0 <= nr(a) && 0 <= nc(a)
-    &&& nr(p) == nr(a) && nc(p) == nr(a) && nr(pi) == nr(a) && nc(pi) == nr(a)
-    &&& nr(q) == nc(a) && nc(q) == nc(a) && nr(qi) == nc(a) && nc(qi) == nc(a)
-    &&& mmul(p, pi) == mid(nr(a)) && mmul(pi, p) == mid(nr(a)) && mmul(q, qi) == mid(nc(a)) && mmul(qi, q) == mid(nc(a))
-    &&& d == mmul(mmul(p, a), q)
-    &&& mcols(d, r, nc(a)) == mzero(nr(a), nc(a) - r) && mrows(d, r, nr(a)) == mzero(nr(a) - r, nc(a))
-    &&& (r == 0 ==> (p == mid(nr(a)) && pi == mid(nr(a))))        // no pivot: the row transform stays the identity (NOT proved anywhere; see DESIGN.md)
-    &&& s.diag@.len() == r && (forall|i: int| 0 <= i < r ==> #[trigger] s.diag@[i] != r0())
-    &&& s.flags@.len() == 4
-}
-pub type SnfFlags = [bool; 4];
-#[verifier::external_body] pub fn snf_in_place(target: Mat, flags: SnfFlags) -> (s: SnfResult)
-    ensures snf_ok(s), s.a@ == target.m@, s.flags@ == flags@ { unimplemented!() }
-impl SnfResult {
-    #[verifier::external_body] pub fn result(&self) -> (r: &Mat) ensures r.m@ == self.d@ { unimplemented!() }
-    #[verifier::external_body] pub fn rank(&self) -> (r: usize) requires snf_ok(*self) ensures r == self.r@ { unimplemented!() }
-    #[verifier::external_body] pub fn p(&self) -> (r: Option<&Mat>) ensures r.is_some() == self.flags@[0], r.is_some() ==> r.unwrap().m@ == self.gp@ { unimplemented!() }
-    #[verifier::external_body] pub fn pinv(&self) -> (r: Option<&Mat>) ensures r.is_some() == self.flags@[1], r.is_some() ==> r.unwrap().m@ == self.gpinv@ { unimplemented!() }
-    #[verifier::external_body] pub fn q(&self) -> (r: Option<&Mat>) ensures r.is_some() == self.flags@[2], r.is_some() ==> r.unwrap().m@ == self.gq@ { unimplemented!() }
-    #[verifier::external_body] pub fn qinv(&self) -> (r: Option<&Mat>) ensures r.is_some() == self.flags@[3], r.is_some() ==> r.unwrap().m@ == self.gqinv@ { unimplemented!() }
-    #[verifier::external_body] pub fn factors(&self) -> (r: Vec<&ER>) requires snf_ok(*self)
-        ensures r@.len() == self.diag@.len(), forall|i: int| 0 <= i < r@.len() ==> (#[trigger] r@[i]).v() == self.diag@[i] { unimplemented!() }
-}
-/// owning iteration over a Vec (ASSUMED std contract)
-pub struct VIterOwn<T> { pub es: Ghost<Seq<T>>, pub pos: Ghost<int>, pub w: Option<T> }
-#[verifier::external_body] pub fn viter_own_<T>(v: Vec<T>) -> (r: VIterOwn<T>) ensures r.es@ == v@, r.pos@ == 0 { unimplemented!() }
-impl<T> VIterOwn<T> {
-    pub fn into_iter(self) -> (r: Self) ensures r == self { self }
-    #[verifier::external_body] pub fn next(&mut self) -> (r: Option<T>)
-        requires 0 <= old(self).pos@ <= old(self).es@.len()
-        ensures final(self).es@ == old(self).es@,
-            old(self).pos@ < old(self).es@.len() ==> (final(self).pos@ == old(self).pos@ + 1 && r == Some(old(self).es@[old(self).pos@])),
-            old(self).pos@ >= old(self).es@.len() ==> (final(self).pos@ == old(self).pos@ && r.is_none()),
-    { unimplemented!() }
-}
-
-// ---------------------------------------------------------------- specification
-/// the non-units among the first n invariant factors, in order
-pub open spec fn nonunits(s: Seq<int>, n: int) -> Seq<int> decreases n {
-    if n <= 0 { Seq::empty() } else if is_unit(s[n - 1]) { nonunits(s, n - 1) } else { nonunits(s, n - 1).push(s[n - 1]) }
-}
-pub proof fn lemma_nonunits_len(s: Seq<int>, n: int) requires 0 <= n ensures nonunits(s, n).len() <= n decreases n { if n > 0 { lemma_nonunits_len(s, n - 1); } }
-/// s2 is the Smith normal form of d2 restricted to the complement of Im(d1)'s pivots
-pub open spec fn linked(s1: SnfResult, s2: SnfResult, d2: int) -> bool {
-    snf_ok(s1) && snf_ok(s2) && nc(d2) == nr(s1.a@) && s2.a@ == mmul(d2, mcols(s1.gpinv@, s1.r@, nr(s1.a@)))
-}
-/// what the transfer maps (p, q) must satisfy for (d1, d2) with r free generators and t torsion generators
-pub open spec fn pq_ok(p: int, q: int, d1: int, r: int, t: int) -> bool {
-    &&& mmul(p, q) == mid(r + t)                                  // (E1)
-    &&& mmul(mrows(p, 0, r), d1) == mzero(r, nc(d1))              // (E5)
-    &&& nr(p) == r + t && nc(q) == r + t && nc(p) == nr(d1) && nr(q) == nr(d1)
-}
-pub open spec fn trans_ok(p: int, q: int, d1: int, d2: int, r: int, t: int) -> bool {
-    pq_ok(p, q, d1, r, t) && mmul(d2, mcols(q, 0, r)) == mzero(nr(d2), r)     // + (E2)
-}
-
+//@include units/hcalc/model.inc
 
 /// rows [a,b) of X times columns [c,d) of Y, when X Y = I_n: the corresponding block of the identity
 proof fn lemma_block(x: int, y: int, n: int, a: int, b: int, c: int, d: int)
@@ -189,7 +96,6 @@ pub proof fn lemma_trans(s1: SnfResult, s2: SnfResult, d2: int, t: int)
     assert(mmul(pf, a1) == mzero(r, nc(a1)));
 }
 
-pub struct HomologyCalc;
 impl HomologyCalc {
     pub fn trivial_result(rank: usize, with_trans: bool) -> (res: (usize, Vec<ER>, Option<Trans>))
         ensures res.0 == rank, res.1@.len() == 0, res.2.is_some() == with_trans, with_trans ==> (res.2.unwrap().f@ == mid(rank as int) && res.2.unwrap().b@ == mid(rank as int)),
